@@ -215,6 +215,27 @@ var modeOps = []op{
 		}
 		return chainNames(chains)
 	}},
+	{"pool derive: roots.Clone() -> AddCert(an intermediate as a further trust anchor, chosen by the call) on the clone -> Verify its leaf with the clone alone; the shared pool is unchanged", "pool", func(o *objset, m *material, s uint64) []byte {
+		// every goroutine owns its clone; the shared pool holds three certificates, i.e. its list does not end on a growth boundary
+		crt, err := smx509.ParseCertificate(m.interDERs[s&1])
+		if err != nil {
+			return res(nil, err)
+		}
+		r := o.roots.Clone()
+		r.AddCert(crt)
+		leaf := o.leaf
+		if s&1 == 1 {
+			leaf = o.leafB
+		}
+		chains, err := leaf.Verify(smx509.VerifyOptions{Roots: r, Intermediates: smx509.NewCertPool(), CurrentTime: m.when})
+		if err != nil {
+			return res(nil, err)
+		}
+		if n := len(o.roots.Subjects()); r.Equal(o.roots) || len(r.Subjects()) != n+1 {
+			return errf("AddCert on a clone of the roots: clone has %d subjects, shared pool %d", len(r.Subjects()), n)
+		}
+		return chainNames(chains)
+	}},
 	{"pool: Verify with the pool of parsed certificates (AddCert, AddCertWithConstraint) as roots", "pool", func(o *objset, m *material, s uint64) []byte {
 		chains, err := pickLeaf(o, s).Verify(smx509.VerifyOptions{Roots: o.rootsParsed, Intermediates: o.inters, CurrentTime: m.when,
 			KeyUsages: []smx509.ExtKeyUsage{smx509.ExtKeyUsageAny}})
